@@ -739,6 +739,7 @@ def handle (op : String) (j : Json) : R Json := do
     | some l => pure (jList ((hilbertPts l).map fun q => jPair (jInt q.1) (jInt q.2)))
     | none => pure (Json.mkObj [("level", jNat (clog2 (max m.w m.h))),
                                 ("order", jList ((hilbertChips m.w m.h).map chipToJson))])
+  | "hilbert_level" => pure (jNat (clog2 (max m.w m.h)))
   | "valid" =>
     let p ← placementOfJson (← field j "p")
     match checkPlacement vr cs m p with
